@@ -92,6 +92,11 @@ class ObjCBackend(ObjCBaseBackend):
     namespace_to_has_routes = {}  # type: typing.Dict[typing.Any, bool]
 
     def generate(self, api):
+        # The lookup tables are class attributes: start every run from scratch
+        # so that an API generated earlier in the process cannot leak.
+        self.obj_name_to_namespace = {}
+        self.namespace_to_has_routes = {}
+
         for namespace in api.namespaces.values():
             self.namespace_to_has_routes[namespace] = False
             if namespace.routes:
